@@ -313,6 +313,18 @@ def one_case(sh, fa, rng, case, dtn, det_log):
     sh.count("closure_roundtrips")
     for kd in kinds:
         sh.count("closure_named_" + kd)
+    # the same through the container reader with a reader schema equal to the writer schema
+    # (named-type reporting then takes the names from the reader's side)
+    if rng.random() < 0.15 and not has_logical:
+        from ..ref import container as RKc
+
+        blob, _b = RKc.write(js, [data], [1])
+        st, vv = guard(lambda: list(fa.reader(io.BytesIO(blob), reader_schema=copy.deepcopy(js), return_named_type=True)))
+        if st == "exc" or len(vv) != 1 or not RC.same(vv[0], want):
+            sh.violation("named-branch-not-tagged", "container reader with reader_schema == writer schema and return_named_type gave %s, expected %s"
+                         % (exc_name(vv) if st == "exc" else printable(vv, 250), printable(want, 250)), info)
+            return
+        sh.count("reader_schema_named_reads")
     for mode, kw in (("record", {"return_record_name": True}),
                      ("record_override", {"return_record_name": True, "return_record_name_override": True}),
                      ("named_override", {"return_named_type": True, "return_named_type_override": True})):
